@@ -125,8 +125,15 @@ class ContractMixin:
             result = self.evs(direct, post0)
             if rtype is not None and not isinstance(rtype, TNone):
                 result = self.coerce_to(result, rtype, st, node)
+            self.assume_wellformed(st, result)
         elif rtype is None or isinstance(rtype, TNone):
             result = mk_const(None)
+        elif isinstance(rtype, TRef) and "fresh1" in fs.modifies:
+            # the callee allocates exactly one object, its result (an instance of the declared class or a subclass)
+            result = SV(rtype, z3.Int(sym.fresh_name(f"new.{rtype.cls}")))
+            st.assume_raw(result.z == st.alloc)
+            st.alloc = st.alloc + 1
+            self.assume_wellformed(st, result)
         else:
             result = sym.fresh(rtype, f"ret.{fs.qualname}")
             self.assume_wellformed(st, result)
@@ -154,7 +161,7 @@ class ContractMixin:
         """Resolve a `modifies` list to [(ref z3 | None, heap key, type)]."""
         locs = []
         for m in fs.modifies:
-            if m in ("fresh", "alloc"):
+            if m in ("fresh", "alloc", "fresh1"):
                 continue
             node = ast.parse(m, mode="eval").body
             if not isinstance(node, ast.Attribute):
@@ -179,7 +186,16 @@ class ContractMixin:
             locs.append((ref, fd[0], fd[1]))
         return locs
 
+    def check_alloc_frame(self, fs, st, node):
+        """A callee that allocates makes its caller allocate: the root's frame must declare `fresh` too."""
+        if (check_ := self.root_spec) is not None and not st.spec and st.depth == 0 and fs.target != check_.target:
+            if any(m in ("fresh", "alloc", "fresh1") for m in fs.modifies) and not any(
+                    m in ("fresh", "alloc", "fresh1", "*") for m in check_.modifies):
+                self.oblige(st, "frame", f"allocation by callee {fs.qualname} (declare `fresh` in modifies)", z3.BoolVal(False), node)
+
     def havoc_modifies(self, fs, bound, st: State, mod, fnode, node=None, check=True):
+        if check:
+            self.check_alloc_frame(fs, st, node)
         for ref, key, t in self.modifies_locs(fs, bound, st, mod, fnode):
             if check:
                 self.check_frame(st, ref, key, node)
@@ -187,8 +203,8 @@ class ContractMixin:
                 st.havoc_field(key, t)
             else:
                 st.havoc_loc(ref, key, t)
-        if not fs.pure:
-            st.havoc_alloc()
+        if not fs.pure and any(m in ("fresh", "alloc", "*") for m in fs.modifies):
+            st.havoc_alloc()  # only a callee that declares allocation (`fresh` in its frame) may allocate
 
     # ------------------------------------------------------------------
     def history_clauses(self, cls: str):
